@@ -210,9 +210,12 @@ class Publish:
         # We're updating an existing file, so all of the following
         # should be available.
         self.readkey = self._node.get_readkey()
-        self.required_shares = self._node.get_required_shares()
+        # An in-place update keeps the encoding of the version it updates.
+        # (The node only knows the client's default k and N until a
+        # download of the whole file has told it the file's own.)
+        self.required_shares = version[5]
         assert self.required_shares is not None
-        self.total_shares = self._node.get_total_shares()
+        self.total_shares = version[6]
         assert self.total_shares is not None
         self._status.set_encoding(self.required_shares, self.total_shares)
 
